@@ -170,9 +170,8 @@ _t('C05', 'Theorems with no hypothesis on operands or bound (Z arithmetic): aln/
           'count_true (C05_aln … C05_eq), and the language-level mapping of <, > and of every literal n : N incl. the clamp for n >= 2^63 (C05_lang). '
           'Correspondence: exhaustive operand lists over the 16 two-variable functions x bounds -3..6, list-vs-list grids, random lists with bounds at '
           '+-len and at the i64 limits. The language-level half is additionally exercised by the C01 suites.')
-_t('C06', 'Theorems: exact characterisation of the library iterator fp (C06_fp: the first iterate that t maps to itself); the substitution/scoping lemma for fixed-point names with both shadowing cases (C06_scope); a syntactic criterion for monotonicity (C06_lfp_positive / C06_gfp_positive, from mono_pos): for EVERY fixed-point-free body in which every free occurrence of X has positive polarity - under and/or/if-branches/quantifiers/at-least counting/an even number of negations - evaluation of lfp X # T / gfp X # T terminates at a reduced ordered r that is a fixed point of the body and below every pre-fixed point / above every post-fixed point among all denotations; the same for semantically monotone fix-free bodies (C06_lfp, C06_gfp). NESTED and MIXED fixed points: when every fixed-point binder of the formula (inner ones included) binds a name that is positive in its own body (posfix), the meaning is monotone / antitone in every name of positive / negative polarity in every environment (C06_monotone, by comparing the two inner iterations through the fixed point reached by the other one), evaluation of the whole formula terminates (C06_terminates, by induction on size with the inner iteration of FixLang) and lfp X # T / gfp X # T end at the least / greatest fixed point of the body (C06_lfp_nested, C06_gfp_nested); shadowing is part of the criterion (an inner binder on X ends X\'s scope). '
-          'for fixed-point names (C06_scope), and for fix-free monotone bodies termination of evaluation at a reduced ordered r that is a fixed point and '
-          'below every pre-fixed point / above every post-fixed point among all denotations (C06_lfp, C06_gfp). Correspondence for the iterator: fp programs '
+_t('C06', 'Theorems: exact characterisation of the library iterator fp (C06_fp: the first iterate that t maps to itself); the substitution/scoping lemma for fixed-point names with both shadowing cases (C06_scope); a syntactic criterion for monotonicity (C06_lfp_positive / C06_gfp_positive, from mono_pos): for EVERY fixed-point-free body in which every free occurrence of X has positive polarity - under and/or/if-branches/quantifiers/at-least counting/an even number of negations - evaluation of lfp X # T / gfp X # T terminates at a reduced ordered r that is a fixed point of the body and below every pre-fixed point / above every post-fixed point among all denotations; the same for semantically monotone fix-free bodies (C06_lfp, C06_gfp). NESTED and MIXED fixed points: when every fixed-point binder of the formula (inner ones included) binds a name that is positive in its own body (posfix), the meaning is monotone / antitone in every name of positive / negative polarity in every environment (C06_monotone, by comparing the two inner iterations through the fixed point reached by the other one), evaluation of the whole formula terminates (C06_terminates, by induction on size with the inner iteration of FixLang) and lfp X # T / gfp X # T end at the least / greatest fixed point of the body (C06_lfp_nested, C06_gfp_nested); shadowing is part of the criterion (an inner binder on X ends the scope of X). '
+          'Correspondence for the iterator: fp programs '
           'over 3 variables with constant, chain, identity, negation (divergent) and random monotone / arbitrary bodies, some nested; language-level fixed points are exercised by the C01 suites.')
 _t('C07', 'Theorems for all reduced ordered diagrams: model(a) = F iff a is unsatisfiable; otherwise it is a cube, reduced and ordered, over variables of a, and '
           'implies a (C07_unsat, C07_cube); infer answers (true,true) iff the variable is forced (C07_infer). Correspondence: model on all 65 536 functions of 4 '
@@ -205,9 +204,9 @@ _t('C10', 'Theorem C10_cli (end to end over the pipeline model): whenever cli pr
           'no lookup failure, i.e. no panic); the filtered table is the filter of the full table (C10_filter), the -v lines are the true rows (C10_vars). The pipeline that produces header, columns and the printed diagram (tokens -> vars -> free_vars -> eval -> retain -> model) is the Gallina function cli. '
           'Correspondence: the real binary against cli on the option grid (15 filter spellings, 3 channels, -c, -m, -b), all small orderings, random formulas/options/ordering files: header, row set, -v set.', NOTE_CLI)
 _t('C11', 'Theorem C11_text (over texts, no bound): the same formula text evaluated under ANY two orderings with pairwise distinct ids (permutations, subsets, supersets with unused names anywhere) yields diagrams that denote the same function of the NAMED variables. Proved through: tokens are a function of the final id table (classify_render), two runs differ by an id renaming that respects names (render_rename), the grammar is closed under id renaming and the parser is the grammar (C08), C11_meaning (renaming by any map with a left inverse renames the denotation). C11_file_orderings: the orderings the binary reads from a file have distinct ids. '
-          'C11_rank_iso: two id assignments related by a strictly increasing map (in particular sparse 64-bit ids and their ranks) yield the SAME diagram up to that renaming - by canonicity, both being reduced, ordered and equivalent - which is what lets S-text/evalid compare arbitrary ids with the model in rank space. C11_roundtrip: if the list exported with -r is read back as the ordering of a second run, the second run prints the identical header, rows, -v lines and -r list, for every formula, first ordering and -f / -c / -m (the second run numbers the variables by their position in the order of the first run, an order isomorphism on the variables of the text; the diagram is the first one renamed, and retain, model and both printers commute with the renaming). C11_roundtrip_export: the same through the exported TEXT (each name followed by a newline): the names -r prints are distinct non-keyword identifiers of the formula text, an identifier followed by a newline is a maximal lexeme and nothing starts at a newline, so the file lexes back to exactly that list (by uniqueness of the lexing relation). What remains a hypothesis is that the second run answers (it evaluates the renamed formula; for fixed-point-free formulas evaluation always answers). That listed variables are ORDERED as in the file is C11_file_order together with C10_header (header order and round trip on the real binary). '
+          'C11_rank_iso: two id assignments related by a strictly increasing map (in particular sparse 64-bit ids and their ranks) yield the SAME diagram up to that renaming - by canonicity, both being reduced, ordered and equivalent - which is what lets S-text/evalid compare arbitrary ids with the model in rank space. C11_roundtrip: if the list exported with -r is read back as the ordering of a second run, the second run prints the identical header, rows, -v lines and -r list, for every formula, first ordering and -f / -c / -m (the second run numbers the variables by their position in the order of the first run, an order isomorphism on the variables of the text; the diagram is the first one renamed, and retain, model and both printers commute with the renaming). C11_roundtrip_export: the same through the exported TEXT (each name followed by a newline): the names -r prints are distinct non-keyword identifiers of the formula text, an identifier followed by a newline is a maximal lexeme and nothing starts at a newline, so the file lexes back to exactly that list (by uniqueness of the lexing relation). That the second run answers is proved as well (C11_roundtrip_total: whether the tokenizer answers depends on the text only, the grammar is closed under renaming and the parser complete, the renamed formula has the renamed denotation and every denotation is reached by the evaluator, the printers do not fail by C12_no_panic): if the first run prints, then for every sufficient fuel the run that reads the exported text back prints, and prints the identical output. That listed variables are ORDERED as in the file is C11_file_order together with C10_header (header order and round trip on the real binary). '
           'Correspondence: 12 formulas x all 65 orderings over {a,b,c,u} incl. supersets with unused names in every position, duplicate/punctuation/keyword files, random ordering files; header order, row set by name, -r list, and the -r/-o round trip on the real binary.', NOTE_CLI)
-_t('C12', 'Theorem C12_no_panic: for EVERY fuel, code-point classification, option set (-f, -c, -m, -b), ordering-file text and formula text, the pipeline model cli (ordering file, tokenize, parse, vars, free_vars, eval, retain, model, both table printers) never returns CliPanic, i.e. no column lookup in either printer fails on the diagram that is printed (answer, retained answer, or a model of either). Proved from: every variable of a parsed tree is an identifier token and parser output has no embedded diagram (parse_vars, by induction over the grammar); the support of the answer consists of proper free occurrences (support_fv); retain and model keep shape and shrink the support; vars is duplicate-free (pf_vars_spec); the partition theorem. Also C12_table and C12_eval (fixed-point-free formulas always evaluate). '
+_t('C12', 'Theorem C12_no_panic: for EVERY fuel, code-point classification, option set (-f, -c, -m, -b), ordering-file text and formula text, the pipeline model cli (ordering file, tokenize, parse, vars, free_vars, eval, retain, model, both table printers) never returns CliPanic, i.e. no column lookup in either printer fails on the diagram that is printed (answer, retained answer, or a model of either). Proved from: every variable of a parsed tree is an identifier token and parser output has no embedded diagram (parse_vars, by induction over the grammar); the support of the answer consists of proper free occurrences (support_fv); retain and model keep shape and shrink the support; vars is duplicate-free (pf_vars_spec); the partition theorem. Also C12_table and C12_eval (fixed-point-free formulas always evaluate); C12_error_iff: the pipeline reports an error exactly when the ordering file, the tokenizer or the parser rejects, for every fuel; C12_answers: every other text whose fixed-point binders are positive in their own bodies (all lfp/gfp-free texts among them) is printed once the fuel suffices - no divergence and no printer failure. '
           'The tokenizer/parser/evaluator model returns Error (never a panic value) on every input, and the correspondence shows the implementation returns Err exactly there. Partial by nature: stack exhaustion, allocation failure, clap and I/O are run-time behaviour. '
           'Correspondence: 40k in-process arbitrary byte strings per quick run through tokenize/new/eval, both DOT renderers, retain, model, to_free_index under catch_unwind; 1000 runs of the binary on arbitrary bytes as formula and ordering file with random options (exit status 0/1/2, no panic message); the option grid.', NOTE_CLI)
 
@@ -228,11 +227,11 @@ _t('C14', 'Theorems about the export functions as lists of (structure, label, st
 NOTE_GEN = ('Trusted: Coq kernel; extraction + ocamlopt; glue (the harness parses generator output with the real rsbdd parser and canonicalises the &-chain; the driver does the same to the model formula). '
             'Not modelled: clap, csv parsing, file I/O, the header comments. Hash-set iteration order (max_clique_gen, augment_colors) is a parameter of the theorems; the check reads the order off the real output or compares as sets. '
             'fsem is the executable reference semantics, proved to agree with Den on fixed-point-free formulas.')
-_t('C15', 'Theorem for EVERY board size n >= 1: the emitted formula (six loop families as maps over seq, right-nested &-chain ending in true) is satisfied by an assignment iff it places exactly one queen per row and per column and no two on a common diagonal (C15, through coordinates and index identities, no bound on n). '
+_t('C15', 'Theorem for EVERY board size n >= 1: the emitted formula (six loop families as maps over seq, right-nested &-chain ending in true) is satisfied by an assignment iff it places exactly one queen per row and per column and no two on a common diagonal (C15, through coordinates and index identities, no bound on n); the token stream the generator prints (one list per line with a trailing comma, <= 1 / = 1, joined by &, closed by true) parses to exactly that formula (C15_text, by completeness of the parser for the grammar). '
           'Correspondence: the real generator output, parsed by the real parser, equals queens_form n as a multiset of constraints for n = 0..12; n <= 4 solved end to end; the u16 boundary (255, 256, 300) by shape.', NOTE_GEN)
-_t('C16', 'Theorems: with the complement list the generator builds (comp_dir / comp_undir, proved sound and complete for adjacency in both directions / in either direction), the --all formula is satisfied exactly by the cliques and the default formula exactly by the cliques of maximum cardinality, for every vertex order, provided the copy naming is injective and fresh (C16_all_*, C16_max_undirected); the prefix loop of the repaired generator yields such copies (Prefix.v). '
+_t('C16', 'Theorems: with the complement list the generator builds (comp_dir / comp_undir, proved sound and complete for adjacency in both directions / in either direction), the --all formula is satisfied exactly by the cliques and the default formula exactly by the cliques of maximum cardinality, for every vertex order, provided the copy naming is injective and fresh (C16_all_*, C16_max_undirected); the prefix loop of the repaired generator yields such copies (Prefix.v); the printed token streams - one -(a & b) & per complement pair or true &, then true or forall copies # ( .. ) => [vertices] >= [copies] - parse to exactly form_all / form_max (C16_text_all, C16_text_max). '
           'Correspondence: all small graphs x flags incl. vertex names that start with v_, against form_all / form_max; graphs <= 4 vertices solved end to end.', NOTE_GEN)
-_t('C17', 'Theorem for every root r and hint list with cells below r^4 and digits in 1..r^2: the emitted formula is satisfied iff the assignment encodes a grid that keeps the hints and has every number once per row, column and box (C17; boxes through a ring identity and one div/mod). The hint reader (white space stripped, position below r^4, ASCII digit) is hints_of_text. '
+_t('C17', 'Theorem for every root r and hint list with cells below r^4 and digits in 1..r^2: the emitted formula is satisfied iff the assignment encodes a grid that keeps the hints and has every number once per row, column and box (C17; boxes through a ring identity and one div/mod). The hint reader (white space stripped, position below r^4, ASCII digit) is hints_of_text; the printed token stream (hint variables, then the = 1 lists, joined by &, closed by true) parses to exactly that formula (C17_tokens). '
           'Digits 0 or above r^2 only force an auxiliary variable (outside the theorem\'s hypothesis, compared by correspondence). Correspondence: hints and constraint families as multisets for r = 1, 2, 3 on exhaustive small and random texts; the output must be a formula (D9).', NOTE_GEN)
 _t('C18', 'Theorems: for EVERY permutation the shuffle may return, a feasible request yields exactly E distinct candidate edges between distinct vertices below V (no pair in both orientations under -u) and an infeasible one is refused (C18_gen); the executable valid_output accepts exactly such answers (valid_output_sound, gen_graph_valid); --convert is the identity / merges reversed duplicates (C18_convert, C18_convert_u); a clique of the colour graph covering every vertex exists iff the input is k-colourable (C18_colours). '
           'The randomness itself cannot be exhibited by a model: every real answer is judged by the extracted valid_output. Correspondence: (V,E) grid x flags x repeated runs; convert and colours on all small edge lists.', NOTE_GEN)
